@@ -23,7 +23,7 @@ fn any_elem() -> BaseElement {
 /// "the decoder returns new(value)" is checked without asking SAT to multiply (the contract of
 /// `new` itself — canonical result, value preserved — is the Verus unit f64_core).
 fn stub_new(value: u64) -> BaseElement {
-    BaseElement(value.rotate_left(17) ^ 0x5bd1_e995_9e37_79b9)
+    BaseElement((value.rotate_left(17) ^ 0x5bd1_e995_9e37_79b9) >> 1)
 }
 
 //# harness: fn=f64 TryFrom<u64>, TryFrom<u128>, TryFrom<usize>, TryFrom<[u8; 8]>; label=complete; tier=quick; replay=no
